@@ -9,7 +9,14 @@ identifiers, `Self::` vs the type name, type ascription vs turbofish, error text
 of `is_fatal` (decided by the exhaustive 65536-code sweep of the harness) are NOT pinned.
 The tables are emitted with the *model's* constructors (Rust variant `FooBar` -> Lean
 `.fooBar`), so an added / renamed variant makes the generated file fail to compile.
-Every arm of a translated `match` must be a plain literal arm: or-patterns, guards, ranges,
+Wherever a value is expected (patterns, shifts, masks, codes, magics) a constant EXPRESSION is
+accepted and evaluated: literals, named constants (free or associated `const NAME: T = <expr>;`,
+resolved recursively; `NAME`, `Self::NAME`, `Type::NAME`), `<< >> | & ^ + - *`, parentheses and
+the lossless conversions `T::from(x)`, `x as T` (range-checked), `x.into()`.  The namespace
+scrutinee may be let-bound or written directly in the `match`; a table `match` may be
+`match x { V => Ok(T::A), _ => Err(..) }` or `let k = match x { V => T::A, _ => return Err(..) }; Ok(k)`.
+Values are always extracted: a changed value changes the generated table (or is refused).
+Every arm of a translated `match` must be a plain value arm: or-patterns, guards, ranges,
 bindings are refused loudly, never dropped.  `--out <file>` writes elsewhere (tests)."""
 import hashlib, os, re, sys
 REPO = os.environ.get("VERIF_REPO", "/repo")
@@ -85,11 +92,80 @@ def fn_in(block, name, what):
     return strip_comments(block_at(block, j))
 
 
-def const(src, name, what):
-    m = re.search(r"const\s+%s\s*:\s*\w+\s*=\s*([^;]+);" % name, src)
-    if not m:
+INT_T = {"u8": 8, "u16": 16, "u32": 32, "u64": 64, "usize": 64, "i8": 7, "i16": 15, "i32": 31, "i64": 63, "isize": 63}
+INT_RE = "(?:" + "|".join(INT_T) + ")"
+
+
+def consts_of(src):
+    """every `const NAME: T = <expr>;` of a file (free or associated)"""
+    d = {}
+    for m in re.finditer(r"\bconst\s+(%s)\s*:\s*[\w:<>&' ]+?\s*=\s*([^;]+);" % ID, strip_comments(src)):
+        name, expr = m.group(1), " ".join(m.group(2).split())
+        if name in d and d[name] != expr:
+            d[name] = None      # ambiguous: two different definitions in one file
+        else:
+            d[name] = expr
+    return d
+
+
+def value(expr, consts, what, depth=0):
+    """evaluate a constant expression (see module docstring); dies on anything else"""
+    if depth > 16:
+        die("%s: constant recursion too deep in `%s`" % (what, expr))
+    e = " ".join(expr.strip().split())
+
+    def fits(v, t, shown):
+        if not (0 <= v < 2 ** INT_T[t]):
+            die("%s: conversion to %s is not lossless in `%s`" % (what, t, shown))
+        return str(v)
+
+    # T::from(<no nested parens>) and `<atom> as T`, innermost first
+    for _ in range(32):
+        m = re.search(r"\b(%s)::from\(([^()]*)\)" % INT_RE, e)
+        if m:
+            e = e[:m.start()] + fits(value(m.group(2), consts, what, depth + 1), m.group(1), m.group(0)) + e[m.end():]
+            continue
+        m = re.search(r"(\([^()]*\)|[\w:]+)\s+as\s+(%s)\b" % INT_RE, e)
+        if m:
+            e = e[:m.start()] + fits(value(m.group(1), consts, what, depth + 1), m.group(2), m.group(0)) + e[m.end():]
+            continue
+        break
+    e = re.sub(r"\.into\(\)", "", e)
+    # literal type suffixes
+    e = re.sub(r"\b(0b[01_]+|0x[0-9a-fA-F_]+|\d[\d_]*?)_?%s\b" % INT_RE, r"\1", e)
+
+    # named constants (last path segment decides: NAME, Self::NAME, Type::NAME)
+    def name_sub(m):
+        name = m.group(0).split("::")[-1]
+        if name not in consts:
+            die("%s: `%s` is neither a literal nor a known constant" % (what, m.group(0)))
+        if consts[name] is None:
+            die("%s: constant `%s` has two different definitions" % (what, name))
+        return "(" + str(value(consts[name], consts, what, depth + 1)) + ")"
+
+    e = re.sub(r"(?<![\w])(?:%s::)*%s" % (ID, ID), name_sub, e)
+    if not re.fullmatch(r"[0-9a-fA-FxXbB_+\-*<>|&^() ]+", e):
+        die("%s: non-constant expression `%s`" % (what, expr))
+    try:
+        v = eval(e.replace("_", ""), {"__builtins__": {}})
+    except Exception:
+        die("%s: cannot evaluate `%s`" % (what, expr))
+    if not isinstance(v, int) or v < 0:
+        die("%s: `%s` is not a natural number" % (what, expr))
+    return v
+
+
+ACK_CONSTS = consts_of(ack)
+EVT_CONSTS = consts_of(evt)
+
+
+def const(consts, name, what):
+    if name not in consts or consts[name] is None:
         die(what)
-    return lit(m.group(1))
+    return value(consts[name], consts, what)
+
+
+VAL = r"((?:[\w:]+|\([^()]*\))(?: as \w+)?)"     # a value position inside an arm / expression
 
 
 def match_block(body, head_re, what):
@@ -124,54 +200,100 @@ def split_arms(text, what):
     return arms
 
 
-def literal_arms(text, rhs_re, what, default_re):
-    """every arm must be `LIT => <rhs_re with one group>`; the last arm must be the default"""
+def value_arms(text, rhs_res, what, default_re, consts):
+    """every arm must be `<const expr> => <one of rhs_res, each with one group>` (the same rhs
+    form in all arms); the last arm must be the default"""
     arms = split_arms(text, what)
     if not re.fullmatch(default_re, arms[-1]):
         die("%s: last arm is not the expected default (error) arm: `%s`" % (what, arms[-1][:80]))
-    rows = []
+    rows, used = [], set()
     for a in arms[:-1]:
-        mm = re.fullmatch(LIT + r" => " + rhs_re, a)
-        if not mm:
+        for k, rhs_re in enumerate(rhs_res):
+            mm = re.fullmatch(VAL + r" => " + rhs_re, a)
+            if mm:
+                used.add(k)
+                rows.append((value(mm.group(1), consts, what + ": arm `%s`" % a[:60]), mm.group(2)))
+                break
+        else:
             die("%s: unsupported arm `%s`" % (what, a[:80]))
-        rows.append((lit(mm.group(1)), mm.group(2)))
     if not rows:
-        die(what + ": no literal arms")
+        die(what + ": no value arms")
+    if len(used) != 1:
+        die(what + ": arms mix different result forms")
     if len(set(c for c, _ in rows)) != len(rows):
         die(what + ": duplicate code")
-    return rows
+    return rows, used.pop()
 
 
-ack_magic = const(ack, "PREFIX_MAGIC", "ack PREFIX_MAGIC")
-evt_magic = const(evt, "PREFIX_MAGIC", "event PREFIX_MAGIC")
-evt_cmd = const(evt, "EVENT_COMMAND_ID", "EVENT_COMMAND_ID")
+ack_magic = const(ACK_CONSTS, "PREFIX_MAGIC", "ack PREFIX_MAGIC")
+evt_magic = const(EVT_CONSTS, "PREFIX_MAGIC", "event PREFIX_MAGIC")
+evt_cmd = const(EVT_CONSTS, "EVENT_COMMAND_ID", "EVENT_COMMAND_ID")
 
 status_impl = impl_block(ack, "Status")
 
-# ---- Status::parse: `let <ns> = (<code> >> S) & M;  match <ns> { arms }`
+
+def match_heads(body):
+    """(scrutinee text, inner block) of every `match <scrutinee> { .. }` of a function body"""
+    out = []
+    for m in re.finditer(r"\bmatch\s+", body):
+        depth, j = 0, m.end()
+        while j < len(body) and not (body[j] == "{" and depth == 0):
+            depth += body[j] in "(["
+            depth -= body[j] in ")]"
+            j += 1
+        if j == len(body):
+            die("unterminated match")
+        out.append((" ".join(body[m.end():j].split()), block_at(body, j)))
+    return out
+
+
+def let_bound(body, name):
+    ms = list(re.finditer(r"\blet (?:mut )?%s(?:\s*:\s*\w+)?\s*=\s*([^;]+);" % re.escape(name), body))
+    return " ".join(ms[0].group(1).split()) if len(ms) == 1 else None
+
+
+# ---- Status::parse: match on `(<code> >> S) & M` (let-bound or written in the match)
 body = fn_in(status_impl, "parse", "Status::parse")
-ms = list(re.finditer(r"let (%s)(?:\s*:\s*\w+)? = \((%s) >> %s\) & %s;" % (ID, ID, LIT, LIT), body))
-if len(ms) != 1:
-    die("Status::parse: namespace expression `let ns = (code >> S) & M;`")
-ns_var, code_var = ms[0].group(1), ms[0].group(2)
-ns_shift, ns_mask = lit(ms[0].group(3)), lit(ms[0].group(4))
-_, arms_src = match_block(body, r"match %s \{" % re.escape(ns_var), "match on the namespace")
-ERR_DEFAULT = r"_ => (?:return )?Err\(.*\)"
+heads = match_heads(body)
+if len(heads) != 1:
+    die("Status::parse: expected exactly one match, found %d" % len(heads))
+scrut, arms_src = heads[0]
+if re.fullmatch(ID, scrut):
+    scrut = let_bound(body, scrut) or die("Status::parse: no unique `let %s = ..;`" % scrut)
+E = r"([^()&>]+?)"
+m1 = re.fullmatch(r"\(\s*(%s)\s*>>\s*%s\s*\)\s*&\s*%s" % (ID, E, E), scrut)
+m2 = re.fullmatch(r"\(\s*(%s)\s*&\s*%s\s*\)\s*>>\s*%s" % (ID, E, E), scrut)
+if m1:
+    code_var = m1.group(1)
+    ns_shift = value(m1.group(2), ACK_CONSTS, "namespace shift")
+    ns_mask = value(m1.group(3), ACK_CONSTS, "namespace mask")
+elif m2:
+    code_var = m2.group(1)
+    ns_shift = value(m2.group(3), ACK_CONSTS, "namespace shift")
+    pre = value(m2.group(2), ACK_CONSTS, "namespace mask")
+    if (pre >> ns_shift) << ns_shift != pre:
+        die("Status::parse: mask `%s` has bits below the shift" % m2.group(2))
+    ns_mask = pre >> ns_shift
+else:
+    die("Status::parse: namespace scrutinee is not `(code >> S) & M`: `%s`" % scrut[:80])
+ERR_DEFAULT = r"_ => (?:\{ )?(?:return )?Err\(.*\)(?: \})?"
+SELF = r"(?:Self|Status)"
+cv = re.escape(code_var)
+ns_rows, _ = None, None
 ns_arms = []
 arms = split_arms(arms_src, "match namespace")
 if not re.fullmatch(ERR_DEFAULT, arms[-1]):
     die("match namespace: last arm is not `_ => Err(..)`: `%s`" % arms[-1][:80])
-SELF = r"(?:Self|Status)"
 for a in arms[:-1]:
     for rx, target in (
-        (LIT + r" => %s::parse_gencp_status\(%s\)" % (SELF, re.escape(code_var)), "genCp"),
-        (LIT + r" => %s::parse_usb_status\(%s\)" % (SELF, re.escape(code_var)), "usb"),
-        (LIT + r" => Ok\(%s \{ (?:code(?:: %s)?, kind: StatusKind::DeviceSpecific|kind: StatusKind::DeviceSpecific, code(?:: %s)?),? \}\)"
-         % (SELF, re.escape(code_var), re.escape(code_var)), "deviceSpecific"),
+        (VAL + r" => %s::parse_gencp_status\(%s\)" % (SELF, cv), "genCp"),
+        (VAL + r" => %s::parse_usb_status\(%s\)" % (SELF, cv), "usb"),
+        (VAL + r" => Ok\(%s \{ (?:code(?:: %s)?, kind: StatusKind::DeviceSpecific|kind: StatusKind::DeviceSpecific, code(?:: %s)?),? \}\)"
+         % (SELF, cv, cv), "deviceSpecific"),
     ):
         mm = re.fullmatch(rx, a)
         if mm:
-            ns_arms.append((lit(mm.group(1)), target))
+            ns_arms.append((value(mm.group(1), ACK_CONSTS, "match namespace: arm `%s`" % a[:60]), target))
             break
     else:
         die("match namespace: unsupported arm `%s`" % a[:90])
@@ -180,19 +302,33 @@ if len(set(p for p, _ in ns_arms)) != len(ns_arms):
 ns_arms.sort()
 
 
+def table_match(body, what):
+    """the one `match <ident> {..}` of a table function"""
+    heads = [h for h in match_heads(body) if re.fullmatch(ID, h[0])]
+    if len(heads) != 1:
+        die("%s: expected exactly one `match <ident> {`, found %d" % (what, len(heads)))
+    return heads[0][1]
+
+
 def code_table(fn, what):
     b = fn_in(status_impl, fn, what)
-    head, text = match_block(b, r"let %s = match %s \{" % (ID, ID), what + ": `let status = match code {`")
-    # default arm: an error return (block or expression)
-    return literal_arms(text, r"(?:%s::)*(%s)" % (ID, ID), what, r"_ => (?:\{ )?(?:return )?Err\(.*\)(?: \})?")
+    rows, _ = value_arms(table_match(b, what), [r"(?:%s::)*(%s)" % (ID, ID)], what, ERR_DEFAULT, ACK_CONSTS)
+    return rows
 
 
 gencp = code_table("parse_gencp_status", "parse_gencp_status")
 usb = code_table("parse_usb_status", "parse_usb_status")
 
 body = fn_in(impl_block(ack, "ScdKind"), "parse", "ScdKind::parse")
-_, text = match_block(body, r"match %s \{" % ID, "ScdKind::parse match")
-kinds = literal_arms(text, r"Ok\((?:Self|ScdKind)::(%s)\)" % ID, "ScdKind::parse", r"_ => (?:return )?Err\(.*\)")
+KIND = r"(?:Self|ScdKind)::(%s)" % ID
+kinds, form = value_arms(table_match(body, "ScdKind::parse"), [r"Ok\(" + KIND + r"\)", KIND], "ScdKind::parse", ERR_DEFAULT, ACK_CONSTS)
+if form == 1:
+    # `let k = match id { V => T::A, .., _ => return Err(..) }; Ok(k)`
+    mk = re.search(r"\blet (%s)(?:\s*:\s*\w+)?\s*=\s*match\b" % ID, body)
+    if not mk or not re.search(r"\bOk\(\s*%s\s*\)\s*$" % re.escape(mk.group(1)), body.strip()):
+        die("ScdKind::parse: bare-variant arms need `let k = match .. ; Ok(k)`")
+    if "return" not in split_arms(table_match(body, "ScdKind::parse"), "ScdKind::parse")[-1]:
+        die("ScdKind::parse: default arm must `return Err(..)`")
 
 h = hashlib.sha1((ack + evt).encode()).hexdigest()[:16]
 L = ["/- GENERATED by tools/gen_ack_tables.py from device/src/u3v/protocol/{ack,event}.rs — do not edit.",
